@@ -1,20 +1,22 @@
 #!/bin/bash
 # usage: seedtest.sh <PROP> <srcdir-with-patch.diff,demo.py,meta.json> [check-props...]
-# Applies the patch to /repo, runs demo (must FAIL), baseline (must pass), the
-# quick checks of the listed properties (default: PROP), then reverts.  Also
-# runs the demo on the pristine tree (must PASS).
+# Works in a scratch worktree of /repo (never in /repo itself): demo on the
+# pristine tree (must PASS), git apply, demo (must FAIL), baseline (must pass),
+# the quick checks of the listed properties against the patched worktree, then
+# the worktree is removed.
 P=$1; D=$2; shift 2; CHECKS=${@:-$P}
-cd /repo || exit 9
-if [ -n "$(git status --porcelain --untracked-files=no)" ]; then echo "repo dirty"; exit 9; fi
+W=/tmp/wt/seedtest.$$
+git -C /repo worktree add --detach $W HEAD -q || exit 9
+trap "git -C /repo worktree remove --force $W" EXIT
 echo "== demo on pristine tree"
-( cd /repo && PYTHONPATH=/repo/src timeout 300 /venv/bin/python $D/demo.py >/tmp/seed_demo0.log 2>&1; echo "   rc=$? $(tail -1 /tmp/seed_demo0.log)" )
-git apply $D/patch.diff || { echo "patch does not apply"; exit 8; }
+( cd $W && PYTHONPATH=$W/src timeout 300 /venv/bin/python $D/demo.py >/tmp/seed_demo0.$$.log 2>&1; echo "   rc=$? $(tail -1 /tmp/seed_demo0.$$.log)" )
+git -C $W apply $D/patch.diff || { echo "patch does not apply"; exit 8; }
 echo "== demo with patch"
-( cd /repo && PYTHONPATH=/repo/src timeout 300 /venv/bin/python $D/demo.py >/tmp/seed_demo1.log 2>&1; echo "   rc=$? $(tail -1 /tmp/seed_demo1.log)" )
+( cd $W && PYTHONPATH=$W/src timeout 300 /venv/bin/python $D/demo.py >/tmp/seed_demo1.$$.log 2>&1; echo "   rc=$? $(tail -1 /tmp/seed_demo1.$$.log)" )
 echo "== baseline with patch"
-/verif/tools/baseline.sh | head -3
+BASELINE_REPO=$W /verif/tools/baseline.sh | head -3
 for c in $CHECKS; do
   echo "== check $c (quick) with patch"
-  ( cd /verif && ./vcheck $c --tier quick --no-evidence > /tmp/seed_check_$c.log 2>&1; echo "   rc=$?"; grep -E "counterexample|VIOLATION|HARNESS-ERROR|INCONCLUSIVE" /tmp/seed_check_$c.log | head -5; tail -1 /tmp/seed_check_$c.log )
+  ( cd /verif && VERIF_REPO=$W PYTHONPATH=$W/src ./vcheck $c --tier quick --no-evidence > /tmp/seed_check_$c.log 2>&1; echo "   rc=$?"; grep -E "counterexample|VIOLATION|HARNESS-ERROR|INCONCLUSIVE" /tmp/seed_check_$c.log | head -5; tail -1 /tmp/seed_check_$c.log )
 done
-cd /repo && git checkout -- . && git status --porcelain --untracked-files=no
+rm -f /tmp/seed_demo0.$$.log /tmp/seed_demo1.$$.log
